@@ -12,6 +12,7 @@ import (
 
 	"github.com/tetratelabs/wazero"
 	"github.com/tetratelabs/wazero/api"
+	"github.com/tetratelabs/wazero/internal/leb128"
 	"github.com/tetratelabs/wazero/internal/wasm"
 	"github.com/tetratelabs/wazero/verifharness/common"
 	"github.com/tetratelabs/wazero/verifharness/wb"
@@ -37,8 +38,12 @@ type miCase struct {
 		K string `json:"k"`
 		I int    `json:"i"`
 	} `json:"exports"`
-	Start int `json:"start"`
-	Body  struct {
+	Start  int `json:"start"`
+	Layout struct {
+		K   string `json:"k"`
+		Sec int    `json:"sec"`
+	} `json:"layout"`
+	Body struct {
 		Fn int    `json:"fn"`
 		K  string `json:"k"`
 		I  int    `json:"i"`
@@ -196,7 +201,42 @@ func (c *miCase) build() []byte {
 		n := uint32(c.DataCount)
 		m.M.DataCountSection = &n
 	}
-	return m.Build()
+	return c.relayout(m.Build())
+}
+
+// relayout applies the case's layout to the encoded module: a copy of one section right after it, one section swapped
+// with the one after it, or custom sections everywhere.
+func (c *miCase) relayout(bin []byte) []byte {
+	if c.Layout.K == "none" || c.Layout.K == "" {
+		return bin
+	}
+	var secs [][]byte
+	for p := 8; p < len(bin); {
+		size, n, _ := leb128.LoadUint32(bin[p+1:])
+		end := p + 1 + int(n) + int(size)
+		secs = append(secs, bin[p:end])
+		p = end
+	}
+	out := append([]byte{}, bin[:8]...)
+	custom := []byte{0, 3, 1, 'x', 7}
+	for i := 0; i < len(secs); i++ {
+		s := secs[i]
+		switch {
+		case c.Layout.K == "custom":
+			out = append(append(out, custom...), s...)
+		case c.Layout.K == "dup" && int(s[0]) == c.Layout.Sec:
+			out = append(append(out, s...), s...)
+		case c.Layout.K == "move" && int(s[0]) == c.Layout.Sec && i+1 < len(secs):
+			out = append(append(out, secs[i+1]...), s...)
+			i++
+		default:
+			out = append(out, s...)
+		}
+	}
+	if c.Layout.K == "custom" {
+		out = append(out, custom...)
+	}
+	return out
 }
 
 // loops: executing the module would not end (a function tail-calling itself - not interruptible, the C07 finding); it is still
@@ -221,6 +261,12 @@ func modIndexOne(id int, raw json.RawMessage) common.Result {
 	}
 	bin := c.build()
 	label := fmt.Sprintf("module-index;body=%s(%d,%d)@f%d", c.Body.K, c.Body.I, c.Body.I2, c.Body.Fn)
+	if c.Layout.K != "none" && c.Layout.K != "" {
+		label = "module-layout;section-order-or-multiplicity" // one cause (the decoder does not track section order), one key
+		if c.Layout.K == "custom" {
+			label = "module-layout;custom-sections-everywhere"
+		}
+	}
 	internal := func(err error) bool {
 		return err != nil && (strings.HasPrefix(err.Error(), "PANIC") || strings.Contains(err.Error(), "runtime error") || strings.Contains(err.Error(), "BUG"))
 	}
@@ -247,7 +293,7 @@ func modIndexOne(id int, raw json.RawMessage) common.Result {
 		case c.Valid && err != nil:
 			res.AddFail(label+";engine="+engine+"#valid-rejected", fmt.Sprintf("valid by the specification's rules, rejected: %s (%x)", trunc(err.Error()), bin))
 		case !c.Valid && err == nil:
-			res.AddFail(label+";engine="+engine+"#invalid-accepted", fmt.Sprintf("invalid by the specification's rules, accepted (%x)", bin))
+			res.AddFail(label+";engine="+engine+"#invalid-accepted", fmt.Sprintf("invalid by the specification's rules (layout %s section %d), accepted (%x)", c.Layout.K, c.Layout.Sec, bin))
 		}
 		if err == nil && !(c.loops() && c.Start >= 0) {
 			// whatever was accepted must instantiate and run without an internal failure
